@@ -197,6 +197,9 @@ func (kgdb *KVInterfaceGDB) DelEdge(eid string) error {
 // DelVertex deletes vertex with id `key`
 func (kgdb *KVInterfaceGDB) DelVertex(id string) error {
 	vid := VertexKey(kgdb.graph, id)
+	if !kgdb.kvg.kv.HasKey(vid) {
+		return fmt.Errorf("Vertex Not Found")
+	}
 	skeyPrefix := SrcEdgePrefix(kgdb.graph, id)
 	dkeyPrefix := DstEdgePrefix(kgdb.graph, id)
 
